@@ -25,7 +25,8 @@ class SimAbort(BaseException):
 
 class SimThread(object):
   __slots__ = ('tid', 'name', 'target', 'gate', 'state', 'blocked_on', 'npoints', 'hot_events', 'nhot', 'after', 'ident',
-               'exc', 'result', 'real', 'events', 'atomic', 'held', 'data', 'timed_wait', 'timed_out')
+               'exc', 'result', 'real', 'events', 'atomic', 'held', 'data', 'timed_wait', 'timed_out',
+               'stall_at', 'stall_len', 'stalled_until')
 
   def __init__(self, tid, name, target):
     self.tid = tid
@@ -35,6 +36,9 @@ class SimThread(object):
     self.gate.acquire()
     self.timed_wait = False
     self.timed_out = False
+    self.stall_at = -1          # stall fault: at this point count of the thread ...
+    self.stall_len = 0          # ... it is not scheduled for this many global steps (while others can run)
+    self.stalled_until = -1
     self.state = NEW
     self.blocked_on = None
     self.npoints = 0
@@ -391,7 +395,8 @@ class Sim(object):
       self.cur = None
       self._main_gate.release()
       return None
-    nxt = self.strategy.pick(self, runnable)
+    awake = [t for t in runnable if t.stalled_until <= self.steps]
+    nxt = self.strategy.pick(self, awake or runnable)
     self._open_segment(nxt, 'b')
     self.cur = nxt
     self.switches += 1
@@ -438,7 +443,17 @@ class Sim(object):
         self.in_handler = False
     if self.steps > self.max_steps:
       self._halt(me, 'step-cap', steps=self.steps)
+    if me.stall_at == me.npoints:
+      me.stall_at = -1
+      me.stalled_until = self.steps + me.stall_len
+      self._ev(me.tid, 'Z', me.stall_len)
+      self.probe('stall_fault_fired')
     nxt = self.strategy.choose(self, me, hot)
+    if nxt.stalled_until > self.steps:
+      # a stalled thread runs only when nobody else can
+      cands = [t for t in self.threads if t.state is RUNNABLE and t.stalled_until <= self.steps]
+      if cands:
+        nxt = me if me in cands else self.strategy.pick(self, cands)
     if nxt is not me:
       site = (kind, a, b)
       self._last_site[me.tid] = site
